@@ -52,6 +52,26 @@ Proof.
 Qed.
 Print Assumptions C17_no_match.
 
+(* The wildcard label is for the server only: main() of iodine.c validates with allow_wildcard = 0, main() of
+   iodined.c with 1 (the startup stage of checks/c17.py runs both real main() functions against this model).
+   What the client accepts has no '*' anywhere; the server accepts all of it, and in addition exactly the
+   strings "*." + plain characters that satisfy the same label rules. *)
+Theorem C17_client_never_wildcard : forall (s : list N),
+  check_topdomain s false = true -> ~ In ch_star s.
+Proof. exact client_domain_no_star. Qed.
+Print Assumptions C17_client_never_wildcard.
+
+Theorem C17_server_accepts_client_domains : forall (s : list N),
+  check_topdomain s false = true -> check_topdomain s true = true.
+Proof. exact server_accepts_client_domains. Qed.
+Print Assumptions C17_server_accepts_client_domains.
+
+Theorem C17_server_only_wildcard : forall (s : list N),
+  check_topdomain s true = true -> check_topdomain s false = false ->
+  exists t, s = ch_star :: ch_dot :: t /\ Forall dom_char t.
+Proof. exact server_only_domains. Qed.
+Print Assumptions C17_server_only_wildcard.
+
 (* every name inside the domain is recognised, with no hypothesis on the name *)
 Theorem C17_match_complete : forall (d : list N) (w : bool) (q : list N) (n : nat),
   check_topdomain d w = true -> match_spec q d n -> query_datalen q d = Some n.
